@@ -770,9 +770,12 @@ pub mod harness {
                             } else if let Some(k) = panic_step {
                                 // async try macros may return the failure of a sibling that fails in the same (or an earlier) step
                                 // before the panicking branch reaches its panic (DESIGN §3.7): then no panic is owed
-                                let min_fail_step = row.iter().enumerate().filter(|(_, &x)| x == 1).map(|(i, _)| i % p.maxd).min();
-                                let early_failure_allowed =
-                                    min_fail_step.map(|f| f <= k).unwrap_or(false) && ex.value.as_deref().map(|v| v.starts_with("Err(") || v.starts_with("None")).unwrap_or(false);
+                                let min_fail_step = row.iter().enumerate().filter(|(i, &x)| x == 1 && *i < 40).map(|(i, _)| i % p.maxd).min();
+                                // a panic in an OPERAND expression of step k (input slots >= 40) is raised when step k starts, before any
+                                // branch of step k can fail: only a failure in an EARLIER step makes it unreachable
+                                let operand_panic = row.iter().enumerate().any(|(i, &x)| x == 2 && i >= 40);
+                                let early_failure_allowed = min_fail_step.map(|f| if operand_panic { f < k } else { f <= k }).unwrap_or(false)
+                                    && ex.value.as_deref().map(|v| v.starts_with("Err(") || v.starts_with("None")).unwrap_or(false);
                                 if !ex.panicked && early_failure_allowed {
                                     // fine
                                 } else if !ex.panicked {
